@@ -2,7 +2,7 @@
 Require Import ZArith NArith Bool List Arith. Import ListNotations.
 From Flocq Require Import Core BinarySingleNaN.
 Require Import Reals.
-Require Import F64 Dec DecFacts Types Scan Pratt GenUnicode Front ScanTotal FrontFacts GenTokens GenDispatch.
+Require Import F64 Dec DecFacts DecFacts2 Types Scan Pratt GenUnicode Front ScanTotal FrontFacts GenTokens GenDispatch.
 Open Scope N_scope.
 
 (* the scanner inverts printing: for every list of well-formed spelled tokens, every well-formed layout before, between and after
@@ -42,6 +42,16 @@ Theorem C02_number_nearest_partial : forall ip fp p, digits_val 0 (ip ++ fp) = Z
   else literal_value ip fp = B754_infinity false.
 Proof. exact literal_nearest. Qed.
 Print Assumptions C02_number_nearest_partial.
+(* ... and the full statement: EVERY decimal literal - also the integer spellings digits / digits. (exact integer, rounded) and literals with more than 400
+   excess fractional zeros (exact value below 2^-1076, whose nearest double is 0) - denotes the exact decimal D / 10^k rounded to nearest, ties to even,
+   or +inf when that overflows (Rust's parse gives inf there too; the scanner passes it on) *)
+Theorem C02_number_nearest : forall ip fp, forallb is_digit (ip ++ fp) = true ->
+  let x := (IZR (digits_val 0 (ip ++ fp)) / IZR (10 ^ Z.of_nat (length fp)))%R in
+  if Rlt_bool (Rabs (round radix2 (SpecFloat.fexp F64.prec F64.emax) ZnearestE x)) (bpow radix2 F64.emax)
+  then B2R (literal_value ip fp) = round radix2 (SpecFloat.fexp F64.prec F64.emax) ZnearestE x /\ is_finite (literal_value ip fp) = true
+  else literal_value ip fp = B754_infinity false.
+Proof. exact literal_denotes_nearest. Qed.
+Print Assumptions C02_number_nearest.
 
 (* the scanner tables of the model are the ones the code has today (regenerated from scanner.rs on every run) *)
 Theorem C02_single_char_tokens_are_the_codes : forallb (fun ct => same_target (scans_to [fst ct]) (inl (snd ct))) rsingle_char_tokens = true.
